@@ -34,9 +34,16 @@ Theorem c20_timestamp_attached : forall tsf its, Forall item_ok its ->
 Proof. exact iview_flush. Qed.
 Print Assumptions c20_timestamp_attached.
 
-Theorem c20_file_append_only : forall w o, exists more, file (step w o) = file w ++ more.
+Theorem c20_file_append_only : forall w o, is_write o = false -> exists more, file (step w o) = file w ++ more.
 Proof. exact file_append_only. Qed.
 Print Assumptions c20_file_append_only.
+
+(** `history -w` (op Write) rewrites the file: afterwards it holds exactly the session's items. The
+    exactly-once statement below is about histories without it (bash, too, appends again after -w). *)
+Theorem c20_write_replaces_file : forall w sid h, WF w -> nth_error (sessions w) sid = Some h ->
+  afile (abs (step w (Write sid))) = map (fun it => (cmd it, if tsflag w then ts it else None)) (items h).
+Proof. exact write_replaces_file. Qed.
+Print Assumptions c20_write_replaces_file.
 
 Theorem c20_decimal_roundtrip : forall z, in_i64 z = true -> parse_i64 (show_Z z) = Some z.
 Proof. exact parse_show_Z. Qed.
@@ -50,7 +57,7 @@ Print Assumptions c20_nonvacuous.
     tags (session, serial) — which erase to the machine of Hist/Spec.v — after ANY op sequence from
     ANY initial file: no tag occurs twice in the file, per session the serials in the file increase,
     every recorded command whose unsaved flag is clear is in the file, and none with the flag set is. *)
-Theorem c20_tags_are_ghost : forall ops w, terase (trun w ops) = arun (terase w) ops.
+Theorem c20_tags_are_ghost : forall ops w, no_write ops -> terase (trun w ops) = arun (terase w) ops.
 Proof. exact trun_erase. Qed.
 Print Assumptions c20_tags_are_ghost.
 
